@@ -74,8 +74,31 @@ def ext_free(ex, path, vals):
     return None
 
 
-def make_externs(argvals):
-    """argvals[i] = z3 Int: the integer that the decimal string argv[i+1] denotes"""
+def make_externs(argvals, lead0=None):
+    """argvals[i] = z3 Int: the integer that the decimal string argv[i+1] denotes; lead0[i] = z3 Bool: the numeral is
+    written with a leading zero after its optional sign (`010`, `-0099`) - still a decimal numeral denoting the same integer"""
+    lead0 = lead0 or [False] * len(argvals)
+
+    def lead_of(p):
+        return lead0[p.obj[1] - 1]
+
+    def radix(ex, path, p, base):
+        """value of strtol-family conversion of the decimal numeral in the given base (C11 7.22.1.4)"""
+        v = arg_of(p)
+        if base == 10:
+            return v
+        mag = z3.If(v < 0, -v, v)
+        other = z3.Int(f"radix{base}_reading_{len(path.events)}_{p.obj[1]}")
+        path.pc.append(z3.And(other >= I64MIN, other <= I64MAX, other != v))
+        if base == 0:
+            # a leading 0 selects octal: the digit string reads differently as soon as it has two digits or a digit >= 8
+            return z3.If(z3.And(lead_of(p), mag >= 8), other, v)
+        if base == 8:
+            return z3.If(mag >= 8, other, v)
+        if base == 16:
+            return z3.If(mag >= 10, other, v)
+        raise ir.Unsupported(f"strtol-family conversion with base {base}")
+
     def arg_of(p):
         if not (isinstance(p.obj, tuple) and p.obj[0] == 'arg' and p.off == 0):
             raise ir.Unsupported(f"string conversion of {p}")
@@ -92,9 +115,9 @@ def make_externs(argvals):
         return IntV(64, arg_of(vals[0]))        # v is an int64 by assumption
 
     def strtoll(ex, path, vals):
-        if not (vals[1].obj is None and ir.is_c(vals[2].t) and vals[2].t == 10):
-            raise ir.Unsupported("strtol/strtoll with an end pointer or a base other than 10")
-        return IntV(64, arg_of(vals[0]))
+        if not (vals[1].obj is None and ir.is_c(vals[2].t)):
+            raise ir.Unsupported("strtol/strtoll with an end pointer or a symbolic base")
+        return IntV(64, radix(ex, path, vals[0], vals[2].t))
 
     def strtod(ex, path, vals):
         # C11 7.22.1.3 with IEC 60559: the correctly rounded double nearest to the decimal value
@@ -243,13 +266,14 @@ def native_print_replay(workdir, iofile, fn, value):
 def check_driver(text, n, timeout_ms):
     funcs, globs = ir.parse_module(text)
     vs = [z3.Int(f"arg{i + 1}") for i in range(n)]
+    lead = [z3.Bool(f"arg{i + 1}_leading_zero") for i in range(n)]
     argc = z3.Int('argc')
     pre = [argc >= 0, argc <= 64] + [z3.And(x >= I64MIN, x <= I64MAX) for x in vs]
     failures, obligations, discharged = [], 0, 0
     inconc = []
     queries, solver_s = 0, 0.0
     for right in (True, False):
-        ex = ir.Exec(funcs, globs, make_externs(vs), max_block_visits=4, timeout_ms=timeout_ms)
+        ex = ir.Exec(funcs, globs, make_externs(vs, lead), max_block_visits=4, timeout_ms=timeout_ms)
         pc0 = pre + [argc == n + 1 if right else argc != n + 1]
         paths = ex.run('main', [IntV(32, argc), PtrV(('argv', n + 1), 0)], init_pc=pc0)
         for what, m, pc in ex.failed:
@@ -278,6 +302,7 @@ def check_driver(text, n, timeout_ms):
                 if rr == 'sat':
                     failures.append({'what': "a decimal argument does not reach its parameter unchanged",
                                      'args': [mm.eval(x, model_completion=True).as_long() for x in vs],
+                                     'leading_zero': [bool(z3.is_true(mm.eval(x, model_completion=True))) for x in lead],
                                      'passed': [mm.eval(a.t, model_completion=True).as_long() for a in args[1:]]})
                     continue
                 if rr != 'unsat':
@@ -316,7 +341,11 @@ def check_driver(text, n, timeout_ms):
             'queries': queries, 'solver_s': round(solver_s, 2)}
 
 
-def native_driver_replay(workdir, driver_c, n, args):
+def numeral(v, lead0):
+    return ('-' if v < 0 else '') + ('0' if lead0 else '') + str(abs(v))
+
+
+def native_driver_replay(workdir, driver_c, n, args, leading_zero=None):
     """link the real driver with a recording asm_main and run it with the model's arguments"""
     stub = os.path.join(workdir, f'stub{n}.c')
     params = ''.join(f', int64_t a{i}' for i in range(1, n + 1))
@@ -328,9 +357,10 @@ def native_driver_replay(workdir, driver_c, n, args):
     r = subprocess.run(['gcc', '-O0', '-o', exe, driver_c, stub], stdout=subprocess.PIPE, stderr=subprocess.STDOUT, text=True)
     if r.returncode != 0:
         return None, r.stdout[-300:]
-    r = subprocess.run([exe] + [str(a) for a in args], stdout=subprocess.PIPE)
+    strings = [numeral(a, z) for a, z in zip(args, leading_zero or [False] * len(args))]
+    r = subprocess.run([exe] + strings, stdout=subprocess.PIPE)
     got = r.stdout.decode().split()
-    return got != [str(a) for a in args], {'got': got, 'want': [str(a) for a in args]}
+    return got != [str(a) for a in args], {'argv': strings, 'got': got, 'want': [str(a) for a in args]}
 
 
 CBMC_DIR = os.path.join(ROOT, 'cbmc')
@@ -462,7 +492,7 @@ def _task(t):
             out['sample'] = {k: res[k] for k in ('n', 'obligations', 'queries', 'solver_s')}
             for f in res['failures']:
                 if f.get('args') and f.get('passed') is not None:
-                    bad, detail = native_driver_replay(work, rr['driver'], n, f['args'])
+                    bad, detail = native_driver_replay(work, rr['driver'], n, f['args'], f.get('leading_zero'))
                     if bad:
                         out['reports'].append(("driver/argument-conversion", f"driver{n} {f['args']}: {f['what']}; recording asm_main received {detail['got']}", dict(f, native=detail)))
                     else:
